@@ -332,6 +332,29 @@ static rc::Gen<KnotC> gen_knots(bool exact_only, int max_extra) {
     if (shape == 9) c.off = chance(50) ? hi : lo;
     else c.off = std::max(lo, std::min(hi, pick(-3 * c.den, 3 * c.den) - total / 2));
     if (shape == 9) for (auto &g : c.gaps) if (g > 0) g = 1;
+    if (chance(12)) {
+      // NEARLY equidistant knots (in the well-scaled domain: |t| <= 8, spacing >= 1/8, every knot exactly representable):
+      // spacings h + d_i with h = 1/8 or 1/4 and 0 <= d_i < 2^-j, j = 8..45 - "equal within a tolerance" but not equal.
+      // A generator that treats such a stretch as uniform is off by j*2^-j relative, far above 2^20 eps for the wider types.
+      const int kmax = c.type == 1 ? 17 : c.type == 2 ? 45 : 55;  // 8 * 2^k must be exactly representable
+      const int k = (int)pick(12, kmax);
+      c.den = (i64)1 << k;
+      const i64 h = c.den / (chance(70) ? 8 : 4);
+      const int j = (int)pick(8, k - 3);   // perturbations below 2^-j
+      const i64 cnt = p + 2 + pick(1, 10);
+      c.gaps.clear(); c.gexp.clear();
+      const int pattern = (int)pick(0, 2);  // 0: one spacing differs, 1: all differ, 2: alternating
+      const i64 where = pick(0, cnt - 1);
+      for (i64 i = 0; i < cnt; i++) {
+        i64 d = (pattern == 0 ? (i == where) : pattern == 1 ? true : (i % 2 == 0)) ? pick(1, std::max<i64>(1, c.den >> j)) : 0;
+        c.gaps.push_back(h + d);
+      }
+      i64 tot = 0; for (auto g : c.gaps) tot += g;
+      const i64 spn = 8 * c.den;
+      while (tot > 2 * spn && c.gaps.size() > 1) { tot -= c.gaps.back(); c.gaps.pop_back(); }
+      c.off = chance(40) ? -spn : chance(50) ? spn - tot : -tot / 2;
+      return c;
+    }
     if (chance(8) && c.type != 1) {
       // strongly graded mesh: knot intervals from 2^-90 up to 1/2 in one vector (width ratios far beyond 1/eps), some repeated knots.
       // Not for float: midpoint coefficients scale like h^-p, and 2^(90*3) is outside float's exponent range.
